@@ -76,27 +76,41 @@ def _masks(prog, res):
     mask_test = None
     mask_vals = None
     op = None
-    mask_name = None
+    local = {}
     for a in st.body:
-      if isinstance(a, ast.Assign) and isinstance(a.value, ast.Call):
-        ext = prog.ext_name(fn.module, a.value.func)
-        kw = {k.arg: k.value for k in a.value.keywords}
-        if ext == 'tf.constant':
-          v = kw.get('value', a.value.args[0] if a.value.args else None)
-          if isinstance(v, ast.ListComp) and isinstance(v.elt, ast.IfExp):
-            t = v.elt.test
-            if isinstance(t, ast.Compare) and isinstance(t.ops[0], ast.Eq):
-              mask_test = const_value(t.comparators[0])
-              mask_vals = (const_value(v.elt.body), const_value(v.elt.orelse))
-              mask_name = dotted(a.targets[0])
-        elif ext in ('tf.maximum', 'tf.minimum') and dotted(
-            a.targets[0]) == 'weights':
-          args = a.value.args
-          uses_mask = any(isinstance(x, ast.BinOp) and mask_name in
-                          names_read(x) and 'weights' in names_read(x)
-                          for x in args)
-          if dotted(args[0]) == 'weights' and uses_mask:
-            op = ext
+      if isinstance(a, ast.Assign) and isinstance(a.targets[0], ast.Name):
+        local[a.targets[0].id] = a.value
+    upd = [a for a in st.body if isinstance(a, ast.Assign) and dotted(
+        a.targets[0]) == 'weights' and isinstance(a.value, ast.Call) and
+           prog.ext_name(fn.module, a.value.func) in ('tf.maximum',
+                                                      'tf.minimum')]
+    if len(upd) != 1:
+      raise AnalysisError('%s: the sign block for %d has no single '
+                          'weights = tf.maximum / tf.minimum(...) update' % (
+                              fn.loc(st), sign))
+    a = upd[0]
+    args = a.value.args
+    # weights (op) weights * MASK, MASK through its local name if it has one
+    prod = [x for x in args if isinstance(x, ast.BinOp) and isinstance(
+        x.op, ast.Mult) and 'weights' in (dotted(x.left), dotted(x.right))]
+    if dotted(args[0]) == 'weights' and len(prod) == 1:
+      m = prod[0].right if dotted(prod[0].left) == 'weights' else prod[0].left
+      if isinstance(m, ast.Name) and m.id in local:
+        m = local[m.id]
+      if isinstance(m, ast.Call) and prog.ext_name(
+          fn.module, m.func) == 'tf.constant':
+        kw = {k.arg: k.value for k in m.keywords}
+        v = kw.get('value', m.args[0] if m.args else None)
+        if isinstance(v, ast.ListComp) and isinstance(v.elt, ast.IfExp):
+          t = v.elt.test
+          if isinstance(t, ast.Compare) and isinstance(t.ops[0], ast.Eq):
+            mask_test = const_value(t.comparators[0])
+            mask_vals = (const_value(v.elt.body), const_value(v.elt.orelse))
+            op = prog.ext_name(fn.module, a.value.func)
+    if mask_test is None:
+      raise AnalysisError('%s: the mask of the sign block for %d is not a '
+                          'tf.constant of [a if m == s else b for m in ...]' %
+                          (fn.loc(st), sign))
     exp_op, word = want[sign]
     key = 'linear_lib.project|%s-mask' % word
     res.check(mask_test == sign and mask_vals == (0.0, 1.0) and op == exp_op,
@@ -314,22 +328,52 @@ def _orientation(prog, res):
                             'w[dominant], opposite to the projection')
   ca = prog.function('categorical_calibration_lib.assert_constraints')
   res.analysed(ca)
-  left = right = None
+  # the asserted difference gather(w, [[i] ...]) - gather(w, [[j] ...]):
+  # which element of the pair indexes each operand, through local names,
+  # comprehensions or append loops
+  local = {}
   for st in ast.walk(ca.node):
-    if isinstance(st, ast.Assign) and dotted(st.targets[0]) in ('left',
-                                                                'right'):
-      for comp in ast.walk(st.value):
-        if isinstance(comp, ast.ListComp):
-          g = comp.generators[0]
-          tnames = [dotted(e) for e in g.target.elts] if isinstance(
-              g.target, ast.Tuple) else []
-          picked = [n for n in names_read(comp.elt)]
-          idx = tnames.index(picked[0]) if picked and picked[0] in tnames \
-              else None
-          if dotted(st.targets[0]) == 'left':
-            left = idx
-          else:
-            right = idx
+    if isinstance(st, ast.Assign) and isinstance(st.targets[0], ast.Name):
+      local.setdefault(st.targets[0].id, st.value)
+
+  def pair_pos(e, depth=0):
+    if depth > 4:
+      return None
+    if isinstance(e, ast.Name):
+      # a list filled by  for (i, j) in ...: e.append([x])
+      for loop in ast.walk(ca.node):
+        if isinstance(loop, ast.For) and isinstance(loop.target, ast.Tuple):
+          tn = [dotted(t) for t in loop.target.elts]
+          for c in ast.walk(loop):
+            if isinstance(c, ast.Call) and isinstance(
+                c.func, ast.Attribute) and c.func.attr == 'append' and \
+                dotted(c.func.value) == e.id and c.args:
+              picked = [n for n in names_read(c.args[0]) if n in tn]
+              if len(picked) == 1:
+                return tn.index(picked[0])
+      if e.id in local and local[e.id] is not e:
+        return pair_pos(local[e.id], depth + 1)
+      return None
+    if isinstance(e, ast.Call) and (prog.ext_name(ca.module, e.func) or
+                                    '').endswith('gather_nd') and len(
+                                        e.args) >= 2:
+      return pair_pos(e.args[1], depth + 1)
+    if isinstance(e, ast.ListComp):
+      g = e.generators[0]
+      tn = [dotted(t) for t in g.target.elts] if isinstance(
+          g.target, ast.Tuple) else []
+      picked = [n for n in names_read(e.elt) if n in tn]
+      if len(picked) == 1:
+        return tn.index(picked[0])
+    return None
+  left = right = None
+  subs = [b for b in ast.walk(ca.node) if isinstance(b, ast.BinOp) and
+          isinstance(b.op, ast.Sub) and pair_pos(b.left) is not None and
+          pair_pos(b.right) is not None]
+  if len(subs) != 1:
+    raise AnalysisError('categorical assert_constraints: the difference of '
+                        'the two gathered sides was not found')
+  left, right = pair_pos(subs[0].left), pair_pos(subs[0].right)
   res.check((left, right) == (0, 1), 'A4',
             'categorical_calibration_lib.assert_constraints|pairs', ca.loc(),
             'asserts w[i] - w[j] <= eps for every pair (i, j)',
@@ -439,9 +483,13 @@ def _norm(prog, res):
     st = expand_aug(st)
     if isinstance(st, ast.Assign) and dotted(st.targets[0]) == 'weights' and \
         isinstance(st.value, ast.BinOp) and isinstance(st.value.op, ast.Div) \
-        and dotted(st.value.left) == 'weights' and dotted(
-            st.value.right) == 'norm':
-      good = True
+        and dotted(st.value.left) == 'weights':
+      d = st.value.right
+      # the norm, or the norm with its zero guard written in place
+      if dotted(d) == 'norm' or (isinstance(d, ast.Call) and prog.ext_name(
+          pr.module, d.func) == 'tf.where' and len(d.args) == 3 and dotted(
+              d.args[2]) == 'norm'):
+        good = True
   res.check(good, 'X1', 'linear_lib.project|normalise', pr.loc(),
             'weights = weights / norm', 'weights are not divided by the norm')
 
@@ -470,6 +518,13 @@ def _categorical_project(prog, res):
             'the bound clips must come after the ordering projection')
   ret = [s for s in ast.walk(fn.node) if isinstance(s, ast.Return)]
   tgt = dotted(ret[-1].value) if ret else None
+  # `result = weights; return result`: the returned name is an alias
+  for st in fn.node.body:
+    if isinstance(st, ast.Assign) and dotted(st.targets[0]) == tgt and \
+        isinstance(st.value, ast.Name) and any(
+            dotted(cfg.nodes[c].stmt.targets[0]) == st.value.id
+            for c in clip_nodes):
+      tgt = st.value.id
   res.check(tgt is not None and all(dotted(cfg.nodes[c].stmt.targets[0]) ==
                                     tgt for c in clip_nodes), 'W4',
             '%s|returns-clipped' % fn.qualname, fn.loc(),
